@@ -1,6 +1,6 @@
 (* C01 — chain induction, answer()/authority() structure, tamper algebra,
    fail-closed without anchors, AD discipline toward the client. *)
-From Sdns Require Import Common.Base Gen.C01 C01.Model C01.Proofs_sig C01.Proofs_chain.
+From Sdns Require Import Common.Base Gen.C01 C01.Model C01.Proofs_sig C01.Proofs_chain C01.Proofs_f9.
 Open Scope N_scope.
 
 (* ------------------------------------------------ induction on the referral depth *)
@@ -101,7 +101,7 @@ Proof.
   - destruct (find_ds E (Some s0) qname pds false) as [e|ds] eqn:Efd.
     + apply IH in H as (Hi & Hv' & Hex); split; [right; exact Hi|split; [exact Hv'|exact Hex]].
     + destruct ds as [|d0 ds'].
-      * destruct (is_zone_secure E qname pds zone); [apply IH in H as (Hi & Hv' & Hex); split; [right; exact Hi|split; [exact Hv'|exact Hex]]|discriminate].
+      * destruct (unsigned_is_bogus E qname pds zone); [apply IH in H as (Hi & Hv' & Hex); split; [right; exact Hi|split; [exact Hv'|exact Hex]]|discriminate].
       * destruct (verify_dnssec E s0 resp (d0 :: ds')) as [b [e|]] eqn:Ev.
         -- apply IH in H as (Hi & Hv' & Hex); split; [right; exact Hi|split; [exact Hv'|exact Hex]].
         -- injection H as <- <-. split; [left; reflexivity|]. split; [exact Evs|].
@@ -111,7 +111,7 @@ Qed.
 Lemma signer_loop_insecure E qname resp pds zone signers last :
   signer_loop E qname resp pds zone signers last = SInsecure ->
   exists s, In s signers /\ validate_signer s qname = None /\ find_ds E (Some s) qname pds false = Ok [] /\
-            is_zone_secure E qname pds zone = false.
+            unsigned_is_bogus E qname pds zone = false.
 Proof.
   revert last. induction signers as [|s0 rest IH]; cbn [signer_loop]; intros last H; [discriminate|].
   destruct (validate_signer s0 qname) eqn:Evs.
@@ -119,7 +119,7 @@ Proof.
   - destruct (find_ds E (Some s0) qname pds false) as [e|ds] eqn:Efd.
     + apply IH in H as (s & Hi & Hrest); exists s; split; [right; exact Hi|exact Hrest].
     + destruct ds as [|d0 ds'].
-      * destruct (is_zone_secure E qname pds zone) eqn:Ez; [apply IH in H as (s & Hi & Hrest); exists s; split; [right; exact Hi|exact Hrest]|].
+      * destruct (unsigned_is_bogus E qname pds zone) eqn:Ez; [apply IH in H as (s & Hi & Hrest); exists s; split; [right; exact Hi|exact Hrest]|].
         exists s0. split; [left; reflexivity|auto].
       * destruct (verify_dnssec E s0 resp (d0 :: ds')) as [b [e|]]; [apply IH in H as (s & Hi & Hrest); exists s; split; [right; exact Hi|exact Hrest]|discriminate].
 Qed.
@@ -286,19 +286,19 @@ Section AnswerSound.
     (pds = [] /\ ds = []) \/
     (exists d rest, pds = d :: rest /\ r_owner d = s /\ ds = pds) \/
     (exists d rest dm, pds = d :: rest /\ r_owner d <> s /\ e_ds E s false = LMsg dm /\
-                       ds = extract (m_ans dm) (Some s) T_DS).
+                       ds = if m_ad dm then extract (m_ans dm) (Some s) T_DS else []).
   Proof.
     unfold find_ds. destruct s as [|l0 sl]; destruct pds as [|d rest]; intros H.
     - left. auto.
     - destruct (name_eqb (r_owner d) []) eqn:En.
       + apply name_eqb_eq in En. injection H as <-. right. right. left. eauto.
-      + right. right. right. destruct (lookup_ds E [] false) as [e|dm] eqn:El; [discriminate|]. injection H as <-.
+      + right. right. right. destruct (lookup_ds E [] false) as [e|dm] eqn:El; [discriminate|]. injection H as <-. cbn [orb].
         apply lookup_ds_ok in El.
         exists d, rest, dm. split; [reflexivity|]. split; [intros Hc; rewrite Hc, name_eqb_refl in En; discriminate|]. split; [exact El|reflexivity].
     - injection H as <-. right. left. auto.
     - destruct (name_eqb (r_owner d) (l0 :: sl)) eqn:En.
       + apply name_eqb_eq in En. injection H as <-. right. right. left. eauto.
-      + right. right. right. destruct (lookup_ds E (l0 :: sl) false) as [e|dm] eqn:El; [discriminate|]. injection H as <-.
+      + right. right. right. destruct (lookup_ds E (l0 :: sl) false) as [e|dm] eqn:El; [discriminate|]. injection H as <-. cbn [orb].
         apply lookup_ds_ok in El.
         exists d, rest, dm. split; [reflexivity|]. split; [intros Hc; rewrite Hc, name_eqb_refl in En; discriminate|]. split; [exact El|reflexivity].
   Qed.
@@ -316,10 +316,7 @@ Section AnswerSound.
     (forall z km, e_key E z = LMsg km -> forall k, In k (keys_of_msg z km) -> honest z (k_mat k)) ->
     (forall z dm, e_ds E z false = LMsg dm -> m_ad dm = true ->
        forall d k, In d (extract (m_ans dm) (Some z) T_DS) -> ds_binds d k -> honest z (k_mat k)) ->
-    (* F9, and only this: a DS answer fetched for a signer other than the owner of the DS set in hand is
-       used as a trust link only if it was authenticated *)
-    (forall s d rest dm, pds = d :: rest -> r_owner d <> s -> e_ds E s false = LMsg dm ->
-       extract (m_ans dm) (Some s) T_DS <> [] -> m_ad dm = true) ->
+    (* nothing more: since the F9 repair findDS itself drops a sub-query DS answer that does not carry AD *)
     dname_target resp = None ->
     validate_answer E qname qtype cd resp0 pds zone = Accept m -> m_ad resp0 = false -> m_ad m = true ->
     exists s, in_zone qname s = true /\
@@ -328,15 +325,16 @@ Section AnswerSound.
         in_zone (r_owner r) s = true /\
         exists set, vouched_set (zsigned s) (e_now E) s (m_ans resp) (m_ns resp) dn r set.
   Proof.
-    intros resp Hforge Hkeys Hanch Hpds Hstore Hstoreds HF9 Hdn Hv Hin Had.
+    intros resp Hforge Hkeys Hanch Hpds Hstore Hstoreds Hdn Hv Hin Had.
     destruct (answer_ad_core E qname qtype cd resp pds zone m Hdn Hv Hin Had) as (_ & _ & s & ds & _ & Hz & Hfd & Hne & Hvd & _).
     exists s. split; [exact Hz|]. cbn zeta.
     assert (Hauth : forall d k, In d ds -> ds_binds d k -> honest s (k_mat k)).
-    { destruct (find_ds_signer_cases E s qname pds ds Hfd) as [(-> & _ & Hr)|[(_ & ->)|[(d & rest & Hp & Ho & ->)|(d & rest & dm & Hp & Ho & Hd & ->)]]].
+    { destruct (find_ds_signer_cases E s qname pds ds Hfd) as [(-> & _ & Hr)|[(_ & ->)|[(d & rest & Hp & Ho & ->)|(d & rest & dm & Hp & Ho & Hd & Hds)]]].
       - exact (root_ds_authentic honest E ds Hanch Hr).
       - contradiction.
       - intros d' k Hd' Hb. rewrite <- Ho. eapply Hpds; eauto.
-      - intros d' k Hd' Hb. eapply Hstoreds; eauto; eapply HF9; eauto. }
+      - destruct (m_ad dm) eqn:Ead; subst ds; [|exfalso; apply Hne; reflexivity].
+        intros d' k Hd' Hb. eapply Hstoreds; eauto. }
     destruct (root_own s resp) eqn:Ero.
     - assert (s = []) as -> by (unfold root_own in Ero; apply andb_true_iff in Ero as [_ E1]; destruct s; [reflexivity|discriminate]).
       rewrite (verify_dnssec_root_own E resp ds Ero) in Hvd.
@@ -345,6 +343,21 @@ Section AnswerSound.
       destruct (own_query s resp); [split; [apply Hforge|apply Hkeys]|apply Hstore].
   Qed.
 End AnswerSound.
+
+(* Since the F9 repair (findDS: an answer the sub-query's own validation did not authenticate supplies no trust link)
+   every non-empty DS set findDS hands to verifyDNSSEC is the inherited one, the anchors', or taken from a sub-query
+   answer that carries AD. *)
+Lemma trust_link_provenance_lemma E s qname pds ds :
+  find_ds E (Some s) qname pds false = Ok ds -> ds <> [] -> ds_provenance_ok E s pds ds.
+Proof.
+  intros H Hne. unfold ds_provenance_ok.
+  destruct (find_ds_signer_cases E s qname pds ds H) as [(-> & _ & Hr)|[(_ & ->)|[(d & rest & Hp & Ho & ->)|(d & rest & dm & Hp & Ho & Hd & Hds)]]].
+  - right. left. exact Hr.
+  - contradiction.
+  - left. reflexivity.
+  - destruct (m_ad dm) eqn:Ead; subst ds; [|contradiction].
+    right. right. exists dm. auto.
+Qed.
 
 (* unsigned data is accepted only when the zone is not secure or an insecure delegation is proven *)
 Theorem unsigned_only_when_insecure_lemma E qname qtype resp0 pds zone m :
